@@ -374,7 +374,8 @@ func Judge(res *Result) []Finding {
 				}
 			}
 			if !legal {
-				add("unexpected-continuation-request", b.Cmd, "continuation request %q after %s (batch %d): nothing the client sent asks for one", clip(r.Text, 40), b.After, bi)
+				// keyed by where it appeared (in pipelined mode the batch spans several commands)
+				fs = append(fs, Finding{Key: "unexpected-continuation-request:after-" + b.After, Cmd: b.Cmd, Msg: fmt.Sprintf("continuation request %q after %s (batch %d): nothing the client sent asks for one, or the server does not wait after it", clip(r.Text, 40), b.After, bi)})
 			}
 		}
 	}
